@@ -11,6 +11,8 @@ rmdir "$W"
 git -C /repo worktree add --detach "$W" HEAD >/dev/null 2>&1 || { echo "worktree failed"; exit 2; }
 if ! git -C "$W" apply "$PATCH"; then echo "patch does not apply"; exit 2; fi
 rsync -a --exclude work --exclude .git /verif/ "$V"/
+# exhaustive TLC results are a function of the specification text alone (lib/common.tlc): reuse them
+[ -d /verif/work/tlc_cache ] && mkdir -p "$V/work" && cp -r /verif/work/tlc_cache "$V/work/tlc_cache"
 sed -i "s#\"/repo#\"$W#g" "$V/harness/Cargo.toml"
 rc=0
 for P in ${PROPS//,/ }; do
